@@ -107,7 +107,10 @@ CLAIMED = {
              "faults. Every second open/read/write step is also interrupted "
              "with KeyboardInterrupt; explicit arguments are passed by keyword "
              "or by position, explicit targets as absolute paths or as bare "
-             "names in the working directory. Fault placement is exhaustive "
+             "names in the working directory; in a quarter of the decompress "
+             "blocks a newer uncompressed file named like the archive without "
+             "its suffix lies next to it (it must neither be handed out nor "
+             "touched). Fault placement is exhaustive "
              "per history; histories are sampled.",
         note="Faults are injected only at calls typhon.files.utils issues and "
              "on file objects it hands to the compression libraries; target "
